@@ -759,6 +759,10 @@ def run(ctx):
     from .. import argorder
     argorder.rule(ctx, "C11.ARGS", py_modules=(), cx=True)
     from .. import lints
+    # shared clause: nothing deletes through the type-selected pointer while the type does not identify the live object
+    # (C10.TYPE-PTR: a delete through the other kind's stale pointer is a double free)
+    from . import c10 as _c10
+    borrow(ctx, "C11", _c10.rule_type_ptr, tu)
     lints.unused(ctx, "C11.PARAMS", ctx.py, (), ctx.cx)
     ctx.assume("int overflow of extent products for huge systems and IEEE division by zero are not decided")
     ctx.assume("the engine is driven through LibRDEngine (lifecycle-respecting call sequences); buffers handed to the "
